@@ -49,7 +49,7 @@ const F_CAT: u32 = 12;
 const F_ATTRS: u32 = 13;
 /// model-side fast "field" of the JSON path `attrs.<JKEYS[i]>`
 const F_JSON_FAST0: u32 = 100;
-const JKEYS: [&str; 4] = ["k", "n", "t", "u"];
+const JKEYS: [&str; 5] = ["k", "n", "t", "u", "x"];
 const FIELD_NAMES: [&str; 14] = ["id", "body", "title", "tag", "num", "inum", "score", "when", "ip", "flag", "blob", "ifast", "cat", "attrs"];
 
 const K_F4: &str = "C03:msm-ignored-single-should-clause";
@@ -127,6 +127,8 @@ enum JVal {
     Int(i64),
     Bool(bool),
     UInt(u64),
+    /// the float h / 2 (the path's column becomes f64)
+    Half(i64),
 }
 
 fn json_term(key: usize) -> Term {
@@ -299,6 +301,13 @@ fn analyse(index: &Index, d: &DocSpec) -> MDoc {
                     m.postings.push((F_ATTRS, t.serialized_value_bytes().to_vec(), vec![0]));
                     m.fast.push((F_JSON_FAST0 + *k as u32, *u as u128));
                 }
+                JVal::Half(h) => {
+                    // floats are normalised to an integer term when they are integral
+                    let mut t = json_term(*k);
+                    if *h % 2 == 0 { t.append_type_and_fast_value(*h / 2); } else { t.append_type_and_fast_value(*h as f64 / 2.0); }
+                    m.postings.push((F_ATTRS, t.serialized_value_bytes().to_vec(), vec![0]));
+                    m.fast.push((F_JSON_FAST0 + *k as u32, (*h as i128 + (1i128 << 60)) as u128));
+                }
                 JVal::Bool(bv) => {
                     let mut t = json_term(*k);
                     t.append_type_and_fast_value(*bv);
@@ -332,6 +341,7 @@ fn to_tantivy_doc(d: &DocSpec) -> TantivyDocument {
             JVal::Int(i) => OwnedValue::I64(*i),
             JVal::Bool(b) => OwnedValue::Bool(*b),
             JVal::UInt(u) => OwnedValue::U64(*u),
+            JVal::Half(h) => OwnedValue::F64(*h as f64 / 2.0),
         })).collect();
         t.add_object(fld(F_ATTRS), obj);
     }
@@ -1924,20 +1934,23 @@ fn jb_model(b: &JB) -> String {
     }
 }
 
-fn jb_holds(lo: &JB, hi: &JB, v: i128) -> bool {
-    (match lo { JB::Unb => true, JB::Val(true, _, b) => *b <= v, JB::Val(false, _, b) => *b < v, JB::F(true, h) => (*h as i128) <= 2 * v, JB::F(false, h) => (*h as i128) < 2 * v })
-        && (match hi { JB::Unb => true, JB::Val(true, _, b) => v <= *b, JB::Val(false, _, b) => v < *b, JB::F(true, h) => 2 * v <= *h as i128, JB::F(false, h) => 2 * v < *h as i128 })
+/// `hv` = twice the value (half-units)
+fn jb_holds(lo: &JB, hi: &JB, hv: i128) -> bool {
+    (match lo { JB::Unb => true, JB::Val(true, _, b) => 2 * *b <= hv, JB::Val(false, _, b) => 2 * *b < hv, JB::F(true, h) => (*h as i128) <= hv, JB::F(false, h) => (*h as i128) < hv })
+        && (match hi { JB::Unb => true, JB::Val(true, _, b) => hv <= 2 * *b, JB::Val(false, _, b) => hv < 2 * *b, JB::F(true, h) => hv <= *h as i128, JB::F(false, h) => hv < *h as i128 })
 }
 
 /// one (corpus, path, bounds) case; the corpus holds only the JSON field
 fn check_json_range_case(ctx: &mut Ctx, spec: &CorpusSpec, b: &Built, key: usize, lo: &JB, hi: &JB) {
     let case = json!({"kind": "json-range", "corpus": spec, "key": key, "lo": lo, "hi": hi});
     let q = RangeQuery::new(jb_bound(key, lo), jb_bound(key, hi));
+    // value of the path in the document; keys n / u hold integers, key x half-units (floats h / 2)
     let value_of = |d: &MDoc| -> Option<i128> {
-        d.fast.iter().find(|(f, _)| *f == F_JSON_FAST0 + key as u32).map(|(_, v)| if key == 1 { (*v as i128) - (1i128 << 63) } else { *v as i128 })
+        d.fast.iter().find(|(f, _)| *f == F_JSON_FAST0 + key as u32).map(|(_, v)| if key == 1 { (*v as i128) - (1i128 << 63) } else if key == 4 { (*v as i128) - (1i128 << 60) } else { *v as i128 })
     };
+    let unit: i128 = if key == 4 { 1 } else { 2 };
     // brute force over the live documents
-    let mut expect: Vec<u64> = b.segs.iter().flat_map(|s| s.iter()).filter(|(d, alive)| *alive && value_of(d).map(|v| jb_holds(lo, hi, v)).unwrap_or(false)).map(|(d, _)| d.id).collect();
+    let mut expect: Vec<u64> = b.segs.iter().flat_map(|s| s.iter()).filter(|(d, alive)| *alive && value_of(d).map(|v| jb_holds(lo, hi, v * unit)).unwrap_or(false)).map(|(d, _)| d.id).collect();
     expect.sort();
     // implementation model, per segment (the column type is a property of the segment)
     let mut model: Vec<u64> = vec![];
@@ -1950,11 +1963,11 @@ fn check_json_range_case(ctx: &mut Ctx, spec: &CorpusSpec, b: &Built, key: usize
         if vals.is_empty() { continue; }
         // key "n" holds values supplied as i64, key "u" values supplied as u64: a u64-supplied value keeps
         // the column i64 only when it is strictly below i64::MAX (columnar accept_value)
-        let col = if key == 1 || vals.iter().all(|x| x.2 < i64::MAX as i128) { "i" } else { "u" };
+        let col = if key == 4 { "f" } else if key == 1 || vals.iter().all(|x| x.2 < i64::MAX as i128) { "i" } else { "u" };
         if col == "i" { if let JB::Val(_, true, v) = lo { if *v > i64::MAX as i128 { u64_lower_on_i64 = true; } } }
         if col == "u" { if let JB::F(_, h) = hi { if *h < 0 { f64_upper_below_min = true; } } }
         let list = vals.iter().map(|x| x.2.to_string()).collect::<Vec<_>>().join(",");
-        let ans = ctx.model.ask(&format!("C03 jrange {col} {} {} {} {list}", if key == 1 { "i" } else { "u" }, jb_model(lo), jb_model(hi)));
+        let ans = ctx.model.ask(&format!("C03 jrange {col} {} {} {} {list}", if key == 1 { "i" } else if key == 4 { "f" } else { "u" }, jb_model(lo), jb_model(hi)));
         let parts: Vec<&str> = ans.split('|').collect();
         if parts.len() != 3 || parts[0].len() != vals.len() {
             ctx.report.violation("model", "C03:model-rejected-request", format!("jrange answered {ans}"), case.clone());
@@ -2022,6 +2035,7 @@ fn check_json_ranges(ctx: &mut Ctx, n_corpora: u64, n_queries: usize) {
                 let v = if big && rng.chance(1, 3) { *rng.pick(&uvals[5..]) as u64 } else if rng.chance(1, 2) { *rng.pick(&uvals[..5]) as u64 } else { rng.below(12) };
                 attrs.push((3usize, JVal::UInt(v)));
             }
+            if rng.chance(1, 2) { attrs.push((4usize, JVal::Half(*rng.pick(&[-13i64, -10, -3, -2, -1, 0, 1, 2, 3, 10, 8193, 16386])))); }
             DocSpec { id: 1000 + i as u64, attrs: Some(attrs), ..Default::default() }
         }).collect();
         let nseg = 1 + rng.usize_below(3);
@@ -2034,7 +2048,7 @@ fn check_json_ranges(ctx: &mut Ctx, n_corpora: u64, n_queries: usize) {
         let spec = CorpusSpec { docs, chunks, cut: 0, deletes, merge: false };
         let b = match build(&spec) { Ok(b) => b, Err(e) => { ctx.report.violation("oracle", "C03:index-build-failed", e, json!({"kind":"corpus","corpus":spec})); continue; } };
         for _ in 0..n_queries {
-            let key = if rng.chance(1, 2) { 1usize } else { 3 };
+            let key = *rng.pick(&[1usize, 3, 4]);
             let is_u = rng.chance(1, 2);
             let mut bound = |rng: &mut Rng| -> JB {
                 if rng.chance(1, 5) { return JB::Unb; }
